@@ -323,7 +323,12 @@ def parse_switch(
     if is_macro_switch(datapack):
         has_default = "default" in case_numbers
         # macro arguments the case functions are called with
-        arguments = "" if with_str is None else f" with {with_str}"
+        # (a literal compound follows the function name directly)
+        arguments = ""
+        if with_str is not None:
+            arguments = (
+                f" {with_str}" if with_str.startswith("{") else f" with {with_str}"
+            )
         for case_body, case_label in zip(func_contents, case_numbers):
             if has_default and case_label != "default":
                 # a `return` in the case must not skip the flag: `default` would run as well
@@ -351,7 +356,7 @@ def parse_switch(
             + f"execute store result storage {datapack.namespace}:{datapack.storage_name} switch_key int 1 run scoreboard players get {scoreboard_player.value[1]} {scoreboard_player.value[0]}"
             + f"\nfunction {datapack.namespace}:{DataPack.private_name}/{name}/{func_count}/select with storage {datapack.namespace}:{datapack.storage_name}"
             + (
-                f"\nexecute unless score __found_case__ {datapack.var_name} matches 1 run function {datapack.namespace}:{DataPack.private_name}/{name}/{func_count}/default"
+                f"\nexecute unless score __found_case__ {datapack.var_name} matches 1 run function {datapack.namespace}:{DataPack.private_name}/{name}/{func_count}/default{arguments}"
                 if has_default
                 else ""
             )
